@@ -74,7 +74,7 @@ func readLine(prefix, o string) string {
 // that the main file declares as well (the bodies are concatenated when the program is loaded)
 const objectsModule = "sub vcl_deliver {\n  set resp.http.Common = \"c\";\n}\nsub vcl_recv {\n  set req.http.Common-Recv = req.http.Common-Recv \"r\";\n}\n"
 
-func objectsProgram(r *rand.Rand) (string, bool) {
+func objectsProgram(r *rand.Rand) (string, bool, bool) {
 	var sb strings.Builder
 	withModule := r.Intn(2) == 0
 	if withModule {
@@ -103,9 +103,23 @@ func objectsProgram(r *rand.Rand) (string, bool) {
 		}
 	}
 	sb.WriteString("  return(deliver);\n}\n")
-	sb.WriteString("sub vcl_hit {\n#FASTLY HIT\n  " + readLine("hit-obj", "obj") + "\n}\n")
+	// vcl_hit reads the object first and then (in half of the programs) modifies its copy: the cached
+	// object must stay what vcl_fetch made
+	sb.WriteString("sub vcl_hit {\n#FASTLY HIT\n  " + readLine("hit-obj", "obj") + "\n  log \"hit-status|\" obj.status \"|\" obj.response;\n")
+	hitMods := r.Intn(2) == 0
+	if hitMods {
+		for _, m := range objMods(r, "obj", "h") {
+			sb.WriteString("  " + m + "\n")
+		}
+		if r.Intn(2) == 0 {
+			sb.WriteString("  set obj.status = 203;\n  set obj.response = \"Changed In Hit\";\n")
+		}
+	}
+	sb.WriteString("}\n")
 	sb.WriteString("sub vcl_deliver {\n#FASTLY DELIVER\n  " + readLine("deliver-in", "resp") + "\n")
 	sb.WriteString("  log \"deliver-req|Keep=\" req.http.Keep \"|B-Only=\" req.http.B-Only \"|Keep2=\" req.http.Keep2;\n")
+	// nothing that was written to bereq / beresp / obj / resp shows on req
+	sb.WriteString("  " + readLine("deliver-reqall", "req") + "\n")
 	for _, m := range objMods(r, "resp", "d") {
 		sb.WriteString("  " + m + "\n")
 	}
@@ -114,7 +128,7 @@ func objectsProgram(r *rand.Rand) (string, bool) {
 		sb.WriteString("  return(deliver);\n")
 	}
 	sb.WriteString("}\n")
-	return sb.String(), withModule
+	return sb.String(), withModule, hitMods
 }
 
 func logsOf(doc any) []string {
@@ -138,7 +152,7 @@ func logsOf(doc any) []string {
 func runObjects(oc *fw.Outcome, cc ccase) {
 	r := rand.New(rand.NewSource(cc.Seed))
 	for i := 0; i < cc.N; i++ {
-		vcl, withModule := objectsProgram(r)
+		vcl, withModule, hitMods := objectsProgram(r)
 		fw.JournalS(vcl)
 		urls := []string{"/a", "/a", "/b", "/a", "/pass/x", "/b", "/a"}
 		var rslv resolver.Resolver = resolver.NewStaticResolver("main.vcl", vcl)
@@ -150,6 +164,8 @@ func runObjects(oc *fw.Outcome, cc ccase) {
 		first := map[string]seen{}
 		hits := 0
 		bad := false
+		firstHitStatus := ""
+		firstHitDeliver := map[string]string{}
 		for k, u := range urls {
 			rec := httptest.NewRecorder()
 			req := httptest.NewRequest("GET", "http://localhost"+u, nil)
@@ -192,6 +208,19 @@ func runObjects(oc *fw.Outcome, cc ccase) {
 						oc.Violate("objects:O3/bereq->req", "statements on bereq in vcl_miss/vcl_pass changed what req reads in vcl_deliver: "+l, detail())
 						bad = true
 					}
+				case strings.HasPrefix(l, "deliver-reqall|"):
+					if l != "deliver-reqall|X-Origin=(null)|X-Origin-B=(null)|From-Fetch=(null)|Marker=(null)|Vary-Probe=(null)|Cache-Control=(null)" {
+						oc.Violate("objects:O3/other-object->req", "a statement on bereq, beresp, obj or resp wrote to req: "+l, detail())
+						bad = true
+					}
+				case strings.HasPrefix(l, "hit-status|"):
+					if firstHitStatus == "" {
+						firstHitStatus = l
+					}
+					if !strings.HasPrefix(l, "hit-status|200|") || l != firstHitStatus {
+						oc.Violate("objects:O2/obj-status-in-hit", "vcl_hit reads "+l+" from the cached object of a 200 response before it changes anything (first hit: "+firstHitStatus+")", detail())
+						bad = true
+					}
 				case strings.HasPrefix(l, "recv-in|"):
 					if l != "recv-in|deliver-set=(null)" {
 						oc.Violate("objects:O3/req->next-request", "a header set on req in vcl_deliver is visible to the next request: "+l, detail())
@@ -218,7 +247,17 @@ func runObjects(oc *fw.Outcome, cc ccase) {
 			if cur.hitObj != "" {
 				hits++
 			}
-			if cur.deliverIn != f.deliverIn && !strings.HasPrefix(u, "/pass") {
+			// a hit delivers the cached object as vcl_hit of THIS request changed it: where vcl_hit modifies obj, the
+			// hits are compared with the first hit (every hit starts from the same cached object and applies the same statements)
+			if hitMods && cur.hitObj != "" {
+				if fh, ok := firstHitDeliver[u]; !ok {
+					firstHitDeliver[u] = cur.deliverIn
+				} else if cur.deliverIn != fh {
+					oc.Violate("objects:O1/obj-in-hit->cached-object:"+diffHeader(fh, cur.deliverIn), fmt.Sprintf("request %d for %s: vcl_deliver of a hit reads resp as %q, the first hit read %q: the statements on obj in an earlier vcl_hit reached the cached object", k, u, cur.deliverIn, fh), detail())
+					bad = true
+					break
+				}
+			} else if cur.deliverIn != f.deliverIn && !strings.HasPrefix(u, "/pass") {
 				oc.Violate("objects:O1/resp->cached-object:"+diffHeader(f.deliverIn, cur.deliverIn), fmt.Sprintf("request %d for %s: vcl_deliver reads resp as %q, the first request read %q: the statements on resp in an earlier vcl_deliver reached the cached object", k, u, cur.deliverIn, f.deliverIn), detail())
 				bad = true
 				break
